@@ -1,6 +1,6 @@
 (** Property C16 — the theorems the check counts as obligations.  Nothing but
     statements closed by [exact] and [Print Assumptions]. *)
-From HS Require Import Base.Prelude C16.Model C16.Lists C16.Policies C16.Store C16.Races C16.Seq.
+From HS Require Import Base.Prelude C16.Model C16.Lists C16.Policies C16.Store C16.Races C16.Seq C16.ModelTTL C16.SoftTTL C16.ModelMT C16.MT.
 Local Open Scope Z_scope.
 
 (** Every one of the nine eviction policies keeps a duplicate-free tracked-key
@@ -77,3 +77,48 @@ Print Assumptions c16_sequential_read_after_write_partial.
 Theorem c16_invalidate_dirty_refuted : ~ wb_sequential_statement.
 Proof. exact invalidate_dirty_refuted. Qed.
 Print Assumptions c16_invalidate_dirty_refuted.
+
+(** Soft-TTL cache, every interleaving of get / put / invalidate(_all) /
+    background refresh / foreign writes to the backing store: at most
+    [capacity] entries, the LRU order lists exactly the cached keys, and the
+    eviction loop of _store never spins. *)
+Theorem c16_soft_ttl_capacity : forall c b0 ins,
+  match tcap c with Some n => 1 <= n | None => True end ->
+  let s := tstt (trun c (tsinit b0) ins) in
+  match tcap c with Some n => zlen (tcache s) <= n | None => True end /\
+  NoDup (ekeys (tcache s)) /\ NoDup (order s) /\
+  (forall x, In x (order s) <-> In x (ekeys (tcache s))) /\ stuck s = false.
+Proof. exact sttl_invariant. Qed.
+Print Assumptions c16_soft_ttl_capacity.
+
+(** Hard TTL (after fix e0d3822 of the coalesced-miss path): in any state, any
+    segment that decides to serve a cached entry serves one younger than the
+    hard TTL at that instant (fresh, stale and coalesced paths). *)
+Theorem c16_soft_ttl_hard_bound : forall c y i, soft c <= hard c ->
+  match snd (tstep c y i) with Some age => age < hard c | None => True end.
+Proof. exact sttl_hard_bound. Qed.
+Print Assumptions c16_soft_ttl_hard_bound.
+
+(** Soft-TTL read-after-write, every interleaving without foreign writers:
+    a cached value always equals the backing-store value. *)
+Theorem c16_soft_ttl_coherent : forall c b0 ins,
+  match tcap c with Some n => 1 <= n | None => True end ->
+  forallb own_input ins = true ->
+  let s := tstt (trun c (tsinit b0) ins) in
+  forall k v at_, eget k (tcache s) = Some (v, at_) -> aget k (tback s) = Some v.
+Proof. exact sttl_coherent. Qed.
+Print Assumptions c16_soft_ttl_coherent.
+
+(** Multi-tier cache: both tiers within capacity, policy keys = cached keys,
+    dirty keys cached — every interleaving, any two policies, any promotion. *)
+Theorem c16_multitier_capacity_and_policy_keys : forall k1 k2 c b0 ins, 1 <= cap (c1 c) -> 1 <= cap (c2 c) ->
+  let s := mstt (mrun (pol_of k1) (pol_of k2) c (msinit (pol_of k1) (pol_of k2) b0) ins) in
+  tier_facts (cap (c1 c)) (l1 s) /\ tier_facts (cap (c2 c)) (l2 s).
+Proof. exact multitier_invariant. Qed.
+Print Assumptions c16_multitier_capacity_and_policy_keys.
+
+(** REFUTED (known finding C16-mt-stale-install): a multi-tier get that was in
+    flight across a delete installs the deleted value in tier 1. *)
+Theorem c16_multitier_stale_install_refuted : ~ mt_read_after_delete_statement.
+Proof. exact mt_stale_install_refuted. Qed.
+Print Assumptions c16_multitier_stale_install_refuted.
